@@ -126,7 +126,13 @@ func DecodePointer(reader io.Reader) (*Pointer, error) {
 // blob's data will be returned, along with a parse error.
 func DecodeFrom(reader io.Reader) (*Pointer, io.Reader, error) {
 	buf := make([]byte, blobSizeCutoff)
-	n, err := reader.Read(buf)
+	// A single Read may return only part of the available data (for
+	// example, when the input arrives in several pipe writes), so fill
+	// the buffer until it is full or the input ends.
+	n, err := io.ReadFull(reader, buf)
+	if err == io.ErrUnexpectedEOF {
+		err = io.EOF
+	}
 	buf = buf[:n]
 
 	var contents io.Reader = bytes.NewReader(buf)
